@@ -556,6 +556,31 @@ func (p *Producer) opLedger() *transaction.Transaction {
 	return p.Tx(kind, []neotest.Signer{u.S}, w.Bytes(), -1)
 }
 
+// OpLedgerEdges queries the Ledger for every block (and one transaction of it,
+// if any) around the older edge of the traceable window.
+func (p *Producer) OpLedgerEdges() *transaction.Transaction {
+	u := p.freeUser()
+	if u == nil {
+		return nil
+	}
+	h := int64(p.BC.BlockHeight()) + 1
+	mtb := int64(p.BC.GetMaxTraceableBlocks())
+	w := io.NewBufBinWriter()
+	for idx := h - mtb - 1; idx <= h-mtb+4; idx++ {
+		if idx < 0 {
+			continue
+		}
+		emit.AppCall(w.BinWriter, nativehashes.LedgerContract, "getBlock", callflag.ReadStates, idx)
+		if idx >= 1 && int(idx) <= len(p.Blocks) && len(p.Blocks[idx-1].Transactions) > 0 {
+			th := p.Blocks[idx-1].Transactions[0].Hash()
+			emit.AppCall(w.BinWriter, nativehashes.LedgerContract, "getTransactionHeight", callflag.ReadStates, th)
+			emit.AppCall(w.BinWriter, nativehashes.LedgerContract, "getTransaction", callflag.ReadStates, th)
+		}
+	}
+	emit.AppCall(w.BinWriter, nativehashes.LedgerContract, "currentIndex", callflag.ReadStates)
+	return p.Tx("ledger-query-edges", []neotest.Signer{u.S}, w.Bytes(), -1)
+}
+
 // Step generates and adds one block.
 func (p *Producer) Step() *block.Block { return p.AddBlock(p.GenTxs()...) }
 
